@@ -17,7 +17,7 @@ def run(ctx):
     ctx.assumptions += ["above the exact-oracle size, soundness of lb rests on Theorems A/B of Oles et al. plus counter-certificate search"]
     mgh.run_models(ctx, quick, "C05")
     if not quick:
-        r = tlc.run_tlc("MGH", workers=16, constants=dict(MaxV=5, WithUb=False), invariants=["LbSound", "IsoZero"], heap="12g", timeout=5400)
+        r = tlc.run_tlc("MGH", workers=16, constants=dict(MaxV=5, WithUb=False), invariants=["LbSound", "IsoZero", "AnyCurvatureSound"], heap="12g", timeout=7200)
         ctx.model("MGH MaxV=5 lower bound", r)
     rng = ctx.rng
     # R0: spec -> code on the inner feasibility routine: every triple TLC enumerated, with the declarative answer
